@@ -22,6 +22,9 @@ struct Task {
     size: u16,
     pattern: u8,
     bound: usize,
+    /// initial sequence (Dublin: the per-round flow port starts here), rounds
+    init: u16,
+    rounds: usize,
 }
 
 fn topo(t: &Task) -> Topo {
@@ -40,7 +43,7 @@ fn topo(t: &Task) -> Topo {
 }
 
 fn params(t: &Task) -> TraceParams {
-    TraceParams { packet_size: t.size, pattern: t.pattern, rounds: 2, max_ttl: 7, ..TraceParams::default() }
+    TraceParams { packet_size: t.size, pattern: t.pattern, rounds: t.rounds, max_ttl: 7, initial_sequence: t.init, ..TraceParams::default() }
 }
 
 fn run_once(t: &Task, ch: Chooser) -> RunOutcome {
@@ -130,7 +133,7 @@ fn judge(t: &Task, o: &RunOutcome) -> (Vec<(String, String)>, [u64; 3]) {
 }
 
 fn task_json(t: &Task) -> Value {
-    json!({"cell": t.cell.name(), "cell_index": c01::cell_index(&t.cell), "target_distance": t.l, "nat_mask": t.nat_mask, "silent_mask": t.silent_mask, "target_answers": t.target_answers, "packet_size": t.size, "pattern": t.pattern})
+    json!({"cell": t.cell.name(), "cell_index": c01::cell_index(&t.cell), "target_distance": t.l, "nat_mask": t.nat_mask, "silent_mask": t.silent_mask, "target_answers": t.target_answers, "packet_size": t.size, "pattern": t.pattern, "initial_sequence": t.init, "rounds": t.rounds})
 }
 
 pub fn run(args: &Args) -> i32 {
@@ -157,17 +160,28 @@ pub fn run(args: &Args) -> i32 {
                             if tier == Tier::Quick && l > 3 && (nat_mask as usize + silent_mask as usize + k) % sizes.len() != 0 {
                                 continue;
                             }
-                            tasks.push(Task { cell: *cell, l, nat_mask, silent_mask, target_answers, size, pattern, bound: if tier == Tier::Thorough { 3 } else { 2 } });
+                            tasks.push(Task { cell: *cell, l, nat_mask, silent_mask, target_answers, size, pattern, bound: if tier == Tier::Thorough { 3 } else { 2 }, init: 33434, rounds: 2 });
                         }
                     }
                 }
             }
         }
     }
+    // value sweep: a path WITHOUT rewriting never shows NAT, whatever the checksum value - every
+    // initial sequence (= every value of the varying port, hence every UDP checksum residue incl.
+    // 0x0000 / 0xFFFF), undisturbed, one round, two responding hops
+    let sweep_sizes: Vec<(u16, u8)> = if tier == Tier::Thorough { sizes.clone() } else { vec![(84, 0)] };
+    for cell in &dublin4 {
+        for &(size, pattern) in &sweep_sizes {
+            for init in 0..=64511u16 {
+                tasks.push(Task { cell: *cell, l: 3, nat_mask: 0, silent_mask: 0, target_answers: true, size, pattern, bound: 0, init, rounds: 1 });
+            }
+        }
+    }
     // every other cell: not applicable, once (with a rewriting device on the path)
     for cell in all_cells() {
         if !applicable(&cell) {
-            tasks.push(Task { cell, l: 3, nat_mask: 0b01, silent_mask: 0, target_answers: true, size: if cell.v6 { 96 } else { 84 }, pattern: 0, bound: 0 });
+            tasks.push(Task { cell, l: 3, nat_mask: 0b01, silent_mask: 0, target_answers: true, size: if cell.v6 { 96 } else { 84 }, pattern: 0, bound: 0, init: 33434, rounds: 2 });
         }
     }
     let agg = Mutex::new((mc::ExploreStats::default(), 0u64, [0u64; 3], 0u64, vec![]));
@@ -262,7 +276,7 @@ pub fn run(args: &Args) -> i32 {
     rep.observe("hop_rounds_expected_detected", json!(counts[0]));
     rep.observe("hop_rounds_expected_not_detected", json!(counts[1]));
     rep.observe("hop_rounds_expected_not_applicable", json!(counts[2]));
-    rep.set("rule", json!("IPv4/UDP/Dublin x ports {fixed src, fixed dest, fixed both} x (size,pattern) {28,29,84,1024}x{00,AA}: EVERY path with target distance 1..5, every placement of <= 2 address/port-rewriting devices, every subset of silent hops, target answering or silent; 2 rounds; all executions with <= 2 (quick) / 3 (thorough) scheduling deviations (delay, loss, reorder). Oracle straight from the statement on the simulator's ground truth (UDP checksum each hop quoted vs previous responding hop / probe as sent), compared with Hop::last_nat_status() in the snapshot taken at each publish. All other cells once: NotApplicable"));
+    rep.set("rule", json!("IPv4/UDP/Dublin x ports {fixed src, fixed dest, fixed both} x (size,pattern) {28,29,84,1024}x{00,AA}: EVERY path with target distance 1..5, every placement of <= 2 address/port-rewriting devices, every subset of silent hops, target answering or silent; 2 rounds; all executions with <= 2 (quick) / 3 (thorough) scheduling deviations (delay, loss, reorder). Oracle straight from the statement on the simulator's ground truth (UDP checksum each hop quoted vs previous responding hop / probe as sent), compared with Hop::last_nat_status() in the snapshot taken at each publish. Value sweep: every initial sequence 0..=64511 (every value of the varying port, so every UDP checksum residue incl. 0x0000/0xFFFF) on an undisturbed 3-hop path without rewriting: no hop may show NAT. All other cells once: NotApplicable"));
     for s in samples {
         rep.sample(s);
     }
@@ -284,6 +298,8 @@ pub fn replay(path: &str) -> i32 {
         size: tj["packet_size"].as_u64().unwrap() as u16,
         pattern: tj["pattern"].as_u64().unwrap() as u8,
         bound: 0,
+        init: tj["initial_sequence"].as_u64().unwrap_or(33434) as u16,
+        rounds: tj["rounds"].as_u64().unwrap_or(2) as usize,
     };
     let choices: Vec<u16> = r["choices"].as_array().unwrap().iter().map(|c| c.as_u64().unwrap() as u16).collect();
     let o = run_once(&t, Chooser::new(&choices, 100_000));
